@@ -281,11 +281,45 @@ func (c *Ctx) observeOpenAPI(s c03Scenario) (verb, path string, params []string,
 	r := c.W.NewRun(map[string]int{}, false)
 	r.InlineAll = true
 	r.FollowSlices = true
-	r.Inject = s.inject("service", "method", "")
+	// the parameters by type, whatever they are called
+	svcName, methName := "service", "method"
+	for _, f := range c.P.Decls[fn].Type.Params.List {
+		t := c.P.DeclPkg[fn].TypesInfo.TypeOf(f.Type)
+		for _, n := range f.Names {
+			switch {
+			case t != nil && typeIsNamed(t, "compiler/protogen", "Service"):
+				svcName = n.Name
+			case t != nil && typeIsNamed(t, "compiler/protogen", "Method"):
+				methName = n.Name
+			}
+		}
+	}
+	r.Inject = s.inject(svcName, methName, "")
 	r.Start(fn)
 	st, ok := r.Result.(*VStruct)
 	if !ok {
 		return "", "", nil, pos, fmt.Sprintf("result of extractMethodHTTPInfo is not a struct value (%T)", r.Result)
+	}
+	// the members by role when they are not called path / httpMethod / pathParams: the list is the variable list, the
+	// string that spells a verb is the verb, the other string is the path
+	if _, hasPath := st.Fields["path"]; !hasPath || st.Fields["httpMethod"] == nil {
+		byRole := map[string]Val{}
+		for _, k := range sortedKeys(st.Fields) {
+			switch v := st.Fields[k].(type) {
+			case VList:
+				byRole["pathParams"] = v
+			case VStr:
+				txt := keyText(v.Segs)
+				if verbLike.MatchString(txt) && !strings.Contains(txt, "/") {
+					byRole["httpMethod"] = v
+				} else {
+					byRole["path"] = v
+				}
+			}
+		}
+		if byRole["path"] != nil && byRole["httpMethod"] != nil {
+			st = &VStruct{Name: st.Name, Fields: byRole}
+		}
 	}
 	str := func(f string) string {
 		if v, ok := st.Fields[f].(VStr); ok {
@@ -758,6 +792,7 @@ func c03OneOperation(c *Ctx) {
 			})
 		}
 		assignSeen := false
+		assignBy := ""
 		replaceOK := true
 		parents := parentMap(decl.Body)
 		ast.Inspect(decl.Body, func(n ast.Node) bool {
@@ -794,12 +829,14 @@ func c03OneOperation(c *Ctx) {
 					setItem = types.ExprString(x.Args[1])
 				}
 				if as != nil && Callee(c.P.DeclPkg[pm].TypesInfo, x) == as && len(x.Args) == 3 {
-					assignSeen = types.ExprString(x.Args[0]) == getItem && types.ExprString(x.Args[1]) == routeVar+".httpMethod"
+					assignSeen = types.ExprString(x.Args[0]) == getItem && strings.HasPrefix(types.ExprString(x.Args[1]), routeVar+".")
+					assignBy = types.ExprString(x.Args[1])
 				}
 			}
 			return true
 		})
-		r.Check(getArg == routeVar+".path" && setArg == routeVar+".path" && getItem != "" && getItem == setItem && assignSeen && replaceOK, "R03d",
+		// the key is one member of the evaluated route, the slot selector another one
+		r.Check(strings.HasPrefix(getArg, routeVar+".") && setArg == getArg && assignBy != getArg && getItem != "" && getItem == setItem && assignSeen && replaceOK, "R03d",
 			"processMethod fetches the path item of info.path, assigns the operation by info.httpMethod and stores it under info.path", c.P.Pos(decl.Pos()),
 			fmt.Sprintf("processMethod: Get(%s)→%s, assign seen=%v, fetched item replaced only when absent=%v, Set(%s, %s): an existing path item is not reused or the key differs from the evaluated path, so operations of RPCs sharing a path are lost or misplaced", getArg, getItem, assignSeen, replaceOK, setArg, setItem))
 	}
